@@ -795,3 +795,95 @@ Lemma example_canon {T : Type} (SC : Scalar T) (v0 v1 : T) :
      | Ok w => Some w | Err _ => None end) =
   Some ("2 -2.5", " -1 ", "imp:n 1 *trcl 0").
 Proof. vm_compute. reflexivity. Qed.
+
+(* ---- "copy the card and override the listed parameters", literally ---- *)
+Section Override.
+  Context {T : Type} (SC : Scalar T).
+  Notation env := (env (T:=T)).
+  Notation group := (group (T:=T)).
+
+  Lemma toks_eqb_refl (a : list string) : toks_eqb a a = true.
+  Proof. unfold toks_eqb. induction a as [|x a IH]; cbn; [reflexivity|]. now rewrite String.eqb_refl, IH. Qed.
+
+  Lemma groups_from_fuel (e : env) f1 : forall f2 toks,
+    (List.length toks <= f1)%nat -> (List.length toks <= f2)%nat ->
+    groups_from SC f1 e toks = groups_from SC f2 e toks.
+  Proof.
+    induction f1 as [|f1 IH]; intros f2 toks H1 H2.
+    - destruct toks; [destruct f2; reflexivity|cbn in H1; lia].
+    - destruct toks as [|elt rest]; [destruct f2; reflexivity|].
+      destruct f2 as [|f2]; [cbn in H2; lia|]. cbn [groups_from].
+      destruct (step SC e elt rest) as [[d rest']|] eqn:E; [|reflexivity]. cbn [bind].
+      destruct (_ && _ && _); [|reflexivity].
+      apply (step_length SC) in E. cbn in H1, H2. rewrite (IH f2 rest'); [reflexivity|lia|lia].
+  Qed.
+
+  Lemma groups_from_app (e : env) f : forall a b ga gb g,
+    (List.length a <= f)%nat -> (List.length b <= g)%nat ->
+    groups_from SC f e a = Ok ga -> groups_from SC g e b = Ok gb ->
+    groups_from SC (f + g) e (a ++ b) = Ok (ga ++ gb).
+  Proof.
+    induction f as [|f IH]; intros a b ga gb g Ha Hb Hga Hgb.
+    - destruct a; [|cbn in Ha; lia]. cbn in Hga. inversion Hga; subst. cbn [app Nat.add]. exact Hgb.
+    - destruct a as [|elt rest].
+      + cbn in Hga. inversion Hga; subst. cbn [app].
+        rewrite (groups_from_fuel e (S f + g) g b); [exact Hgb|lia|lia].
+      + cbn [app Nat.add groups_from] in *.
+        destruct (step SC e elt rest) as [[d rest']|] eqn:Es; [|discriminate]. cbn [bind] in *.
+        remember (firstn (List.length rest - List.length rest') rest) as used eqn:Eu.
+        destruct (negb (numeric_start elt) && toks_eqb (used ++ rest') rest
+                  && match step SC e elt used with Ok (_, []) => true | _ => false end) eqn:Ec;
+          [|discriminate].
+        destruct (groups_from SC f e rest') as [gs'|] eqn:Eg; [|discriminate].
+        cbn [bind] in Hga. inversion Hga; subst ga. clear Hga.
+        rewrite (step_app SC e elt rest b d rest' (groups_head SC e g b gb Hgb) Es). cbn [bind].
+        pose proof (step_length SC e elt rest d rest' Es) as Hl.
+        apply andb_true_iff in Ec. destruct Ec as [Ec E3].
+        apply andb_true_iff in Ec. destruct Ec as [E1 E2].
+        pose proof (toks_eqb_eq _ _ E2) as E2'.
+        assert (Hu : firstn (List.length (rest ++ b) - List.length (rest' ++ b)) (rest ++ b) = used).
+        { rewrite !app_length.
+          replace (List.length rest + List.length b - (List.length rest' + List.length b))%nat
+            with (List.length rest - List.length rest')%nat by lia.
+          rewrite firstn_app.
+          replace (List.length rest - List.length rest' - List.length rest)%nat with 0%nat by lia.
+          cbn [firstn]. rewrite app_nil_r. symmetry. exact Eu. }
+        rewrite Hu, E1, E3. cbn [andb].
+        replace (toks_eqb (used ++ rest' ++ b) (rest ++ b)) with true
+          by (rewrite app_assoc, E2'; symmetry; apply toks_eqb_refl).
+        rewrite (IH rest' b gs' gb g); [reflexivity| |exact Hb|exact Eg|exact Hgb].
+        cbn in Ha. lia.
+  Qed.
+
+  Lemma fold_sel_acc (sel : kws (T:=T) -> bool) (b : list group) : forall x,
+    fold_left (fun acc g => if sel (snd g) then Some g else acc) b x =
+    match fold_left (fun acc g => if sel (snd g) then Some g else acc) b None with
+    | Some g => Some g | None => x end.
+  Proof.
+    unfold Canon.group in *. induction b as [|g r IH]; intros x; [reflexivity|]. cbn [fold_left]. cbv beta.
+    rewrite (IH (if sel (snd g) then Some g else x)), (IH (if sel (snd g) then Some g else None)).
+    destruct (fold_left _ r None); [reflexivity|]. destruct (sel (snd g)); reflexivity.
+  Qed.
+
+  Lemma last_with_app (sel : kws (T:=T) -> bool) (a b : list group) :
+    last_with sel (a ++ b) = match last_with sel b with Some g => Some g | None => last_with sel a end.
+  Proof. unfold last_with. rewrite fold_left_app. apply fold_sel_acc. Qed.
+
+  (* the groups of "options of the copied card, then the BUT list" are the two
+     group lists one after the other, so the constructed card takes FILL, LAT,
+     TRCL, U, MAT, RHO from the BUT list when it lists them and from the copied
+     card otherwise, and its IMP entries are the copied ones followed by the
+     BUT list's (last value per particle: C15_keywords_later_wins) *)
+  Theorem canon_is_override (e : env) (tb to : list string) (gb go : list group) :
+    groups SC e tb = Ok gb -> groups SC e to = Ok go ->
+    groups SC e (tb ++ to) = Ok (gb ++ go) /\
+    (forall sel, last_with sel (gb ++ go) =
+                 match last_with sel go with Some g => Some g | None => last_with sel gb end) /\
+    flat_map (@imp_tokens T) (gb ++ go) = flat_map (@imp_tokens T) gb ++ flat_map (@imp_tokens T) go.
+  Proof.
+    intros Hb Ho. unfold groups in *. split; [|split].
+    - rewrite app_length. apply (groups_from_app e _ tb to gb go _ (le_n _) (le_n _) Hb Ho).
+    - intros sel. apply last_with_app.
+    - apply flat_map_app.
+  Qed.
+End Override.
